@@ -49,6 +49,17 @@ impl Unrooted {
     pub fn from(v: Value) -> (r: Unrooted) ensures r.v == v { unimplemented!() }
 }
 
+// ---- the resume primitive
+pub enum Poll<T> { Ready(T), Pending }
+#[verifier::external_body] pub struct OwnedCtx { _p: () }
+#[verifier::external_body] pub struct ErrPayload { _p: () }
+// thread.rs Error: `Dead` and the rest
+pub enum Error { Dead, Other(ErrPayload) }
+#[verifier::external_body]
+pub fn dead_thread_msg() -> String { unimplemented!() }
+#[verifier::external_body]
+pub fn fmt_vm_error(e: Error) -> String { unimplemented!() }
+
 // Sender/Receiver projected to the one field the extracted bodies touch.  In the real code both hold
 // `queue: Arc<Mutex<VecDeque<Value>>>` pointing to the *same* deque; under R-lock each body is the
 // critical section on that deque.
